@@ -625,3 +625,52 @@ def c11n(ctx):
             ctx.check(gg.guarded(n, is_flag, False), 'ProgressStore.%s:not-when-read-only' % meth,
                       'ProgressStore.%s %s only if the store is not read-only' % (meth, what), fn, x,
                       fail='a read-only ProgressStore still %s (%s)' % (what, unparse(x)[:50]))
+
+
+def _levels_offset(e):
+    """k for an expression `grid.levels + k` (None if it is something else)"""
+    if isinstance(e, ast.Attribute) and e.attr == 'levels' and not (isinstance(e.value, ast.Name) and e.value.id == 'self'):
+        return 0
+    if isinstance(e, ast.BinOp) and isinstance(e.op, (ast.Add, ast.Sub)) and isinstance(e.right, ast.Constant) and \
+            isinstance(e.right.value, int):
+        k = _levels_offset(e.left)
+        if k is not None:
+            return k + (e.right.value if isinstance(e.op, ast.Add) else -e.right.value)
+    return None
+
+
+@rule('C11.o', floor=2)
+def c11o(ctx):
+    """"every tile of the chosen levels": a list of levels in the seed configuration is cut to the levels the grid has -- 0 up to and
+    including grid.levels - 1 -- and to nothing less: the deepest level of the grid is a level.  Every upper bound the selection
+    compares with, written as an exclusive bound, is exactly grid.levels (`x <= grid.levels - 1`, `x < grid.levels`,
+    `range(grid.levels)`); `range(grid.levels - 1)` drops the last level of a short custom grid while the task still completes"""
+    C = 'mapproxy/seed/config.py'
+    for cls in ('LevelsList', 'LevelsRange'):
+        fn = ctx.fn('%s:%s.for_grid' % (C, cls))
+        bounds = []
+        for x in fn.walk():
+            if isinstance(x, ast.Compare) and len(x.ops) >= 1:
+                terms = [x.left] + list(x.comparators)
+                for a, op, b in zip(terms, x.ops, terms[1:]):
+                    kb, ka = _levels_offset(b), _levels_offset(a)
+                    if kb is not None and isinstance(op, (ast.Lt, ast.LtE)):
+                        bounds.append((x, kb + (1 if isinstance(op, ast.LtE) else 0)))
+                    if ka is not None and isinstance(op, (ast.Gt, ast.GtE)):
+                        bounds.append((x, ka + (1 if isinstance(op, ast.GtE) else 0)))
+            elif is_call(x, 'range') and x.args:
+                k = _levels_offset(x.args[-1] if len(x.args) <= 2 else x.args[1])
+                if k is not None:
+                    bounds.append((x, k))
+            elif is_call(x, 'min') and len(x.args) == 2:
+                # an inclusive stop (the range is built with stop + 1)
+                for a in x.args:
+                    k = _levels_offset(a)
+                    if k is not None:
+                        bounds.append((x, k + 1))
+        if not bounds:
+            raise Undecided('%s.for_grid: no comparison with the number of levels of the grid found' % cls)
+        for x, k in bounds:
+            ctx.check(k == 0, '%s.for_grid:deepest-level-is-a-level' % cls, 'levels are cut at grid.levels (exclusive)', fn, x,
+                      fail='%s.for_grid cuts the selected levels at grid.levels%+d (exclusive): %s' % (
+                          cls, k, 'the deepest level of the grid is never seeded' if k < 0 else 'levels the grid does not have are selected'))
